@@ -38,7 +38,7 @@ deriving DecidableEq, Repr
 structure Apu where
   hasL : Bool := false
   hasR : Bool := false
-  ch1 : Square := { hasSweep := true }
+  ch1 : Square := { hasSweep := true, sweepIncrease := true }   -- &square{sweep: &sweep{sweepIncrease: true}} (fix 636f923)
   ch2 : Square := {}
   ch3 : Wave := {}
   ch4 : Noise := {}
